@@ -83,13 +83,13 @@ def ref_decode(data, signed):
 
 
 # ---------------------------------------------------------------- input pools
-def boundary_values(kmax=19):
-    s = set(range(-130, 131))
+def boundary_values(kmax=19, wide=True):
+    s = set(range(-130, 131) if wide else range(-66, 67))
     for k in range(0, kmax + 1):
-        for e in (7 * k, 7 * k - 1, 7 * k + 1):
+        for e in ((7 * k, 7 * k - 1, 7 * k + 1) if wide else (7 * k, 7 * k - 1)):
             if e < 0:
                 continue
-            for d in (-2, -1, 0, 1, 2):
+            for d in ((-2, -1, 0, 1, 2) if wide else (-1, 0, 1)):
                 s.add((1 << e) + d)
                 s.add(-(1 << e) + d)
     return sorted(s)
@@ -102,6 +102,40 @@ def random_values(rng, n):
         v = rng.getrandbits(bits) | (1 << (bits - 1))
         out.append(v if rng.randrange(2) else -v)
     return out
+
+
+class ImplHang(BaseException):
+    """raised by the interval timer inside an implementation call that does not return (BaseException so that
+    the `except Exception` of call_impl cannot swallow it)"""
+
+
+HUNG = set()          # names of implementation functions that did not terminate on some input (this run)
+CALL_SECONDS = 3.0
+
+
+def _on_alarm(signum, frame):
+    raise ImplHang()
+
+
+def timed(ctx, name, arg, thunk):
+    """thunk() under a per-call timer. A call that does not return is a violation (every theorem gives a result for
+    every integer / well-formed encoding); the function is then not called again in this run."""
+    import signal
+    if name in HUNG:
+        return None
+    signal.signal(signal.SIGALRM, _on_alarm)
+    signal.setitimer(signal.ITIMER_REAL, CALL_SECONDS)
+    try:
+        return thunk()
+    except ImplHang:
+        HUNG.add(name)
+        ctx.violation({'fn': name, 'args': [arg], 'expected': 'a result or the documented ValueError',
+                       'actual': 'no result after %.0f s (non-terminating loop)' % CALL_SECONDS,
+                       'how_to_replay': replay_cmd(name, arg)})
+        ctx.failed_stages.append(('termination', '%s does not return on %r' % (name, arg)))
+        return None
+    finally:
+        signal.setitimer(signal.ITIMER_REAL, 0)
 
 
 def impl_decode(fn, data):
@@ -122,7 +156,12 @@ def wrap(t):
 
 def model_call(name, arg):
     import py2coq
-    return '%s FUEL %s' % (py2coq.cname(name), wrap(to_term(arg)))
+    if isinstance(arg, int) and abs(arg) >= (1 << 32):
+        # hexadecimal literal: Coq parses it much faster than a 40-digit decimal one
+        t = '(-0x%x)' % -arg if arg < 0 else '0x%x' % arg
+    else:
+        t = wrap(to_term(arg))
+    return '%s FUEL %s' % (py2coq.cname(name), t)
 
 
 def decoder_inputs(rng, values):
@@ -166,47 +205,43 @@ def replay_cmd(fn, v):
 def check_value(ctx, lb, v, tail):
     """the property on one integer; returns number of evaluations"""
     n = 0
-    # signed: canonical encoding + round trip
-    exp = ref_sleb(v)
-    got = call_impl(lb.signed_leb128_encode, [v], diag=())
-    n += 1
-    if not (isinstance(got, OkV) and isinstance(got.v, (bytes, bytearray)) and bytes(got.v) == exp):
-        ctx.violation({'fn': 'signed_leb128_encode', 'args': [v], 'expected': list(exp),
-                       'actual': list(got.v) if isinstance(got, OkV) else 'exception',
-                       'how_to_replay': replay_cmd('signed_leb128_encode', v)})
-    d = impl_decode(lb.signed_leb128_decode, list(exp) + tail)
-    n += 1
-    if not (isinstance(d, OkV) and d.v == (v, tail)):
-        ctx.violation({'fn': 'signed_leb128_decode', 'args': [list(exp) + tail], 'expected': [v, tail],
-                       'actual': list(d.v) if isinstance(d, OkV) else 'exception',
-                       'how_to_replay': replay_cmd('signed_leb128_decode', list(exp) + tail)})
-    if v >= 0:
-        exp = ref_uleb(v)
-        got = call_impl(lb.unsigned_leb128_encode, [v], diag=())
-        n += 1
-        if not (isinstance(got, OkV) and isinstance(got.v, (bytes, bytearray)) and bytes(got.v) == exp):
-            ctx.violation({'fn': 'unsigned_leb128_encode', 'args': [v], 'expected': list(exp),
+
+    def enc(name, ref, diag=()):
+        exp = ref(v)
+        got = timed(ctx, name, v, lambda: call_impl(getattr(lb, name), [v], diag=diag))
+        if got is not None and not (isinstance(got, OkV) and isinstance(got.v, (bytes, bytearray)) and bytes(got.v) == exp):
+            ctx.violation({'fn': name, 'args': [v], 'expected': list(exp),
                            'actual': list(got.v) if isinstance(got, OkV) else 'exception',
-                           'how_to_replay': replay_cmd('unsigned_leb128_encode', v)})
-        d = impl_decode(lb.unsigned_leb128_decode, list(exp) + tail)
-        n += 1
-        if not (isinstance(d, OkV) and d.v == (v, tail)):
-            ctx.violation({'fn': 'unsigned_leb128_decode', 'args': [list(exp) + tail], 'expected': [v, tail],
+                           'how_to_replay': replay_cmd(name, v)})
+        return exp
+
+    def dec(name, exp):
+        data = list(exp) + tail
+        d = timed(ctx, name, data, lambda: impl_decode(getattr(lb, name), data))
+        if d is not None and not (isinstance(d, OkV) and d.v == (v, tail)):
+            ctx.violation({'fn': name, 'args': [data], 'expected': [v, tail],
                            'actual': list(d.v) if isinstance(d, OkV) else 'exception',
-                           'how_to_replay': replay_cmd('unsigned_leb128_decode', list(exp) + tail)})
+                           'how_to_replay': replay_cmd(name, data)})
+    # signed: canonical encoding + round trip
+    dec('signed_leb128_decode', enc('signed_leb128_encode', ref_sleb))
+    n += 2
+    if v >= 0:
+        dec('unsigned_leb128_decode', enc('unsigned_leb128_encode', ref_uleb))
+        n += 2
     else:
-        got = call_impl(lb.unsigned_leb128_encode, [v], diag=(ValueError,))
+        name = 'unsigned_leb128_encode'
+        got = timed(ctx, name, v, lambda: call_impl(lb.unsigned_leb128_encode, [v], diag=(ValueError,)))
         n += 1
-        if got is not Diag:
-            ctx.violation({'fn': 'unsigned_leb128_encode', 'args': [v], 'expected': 'ValueError',
+        if got is not None and got is not Diag:
+            ctx.violation({'fn': name, 'args': [v], 'expected': 'ValueError',
                            'actual': list(got.v) if isinstance(got, OkV) else 'other exception',
-                           'how_to_replay': replay_cmd('unsigned_leb128_encode', v)})
+                           'how_to_replay': replay_cmd(name, v)})
     return n
 
 
 def oracle_sweep(ctx, lb, deep):
-    """quick part always; the deep part (exhaustive to 2^16, more random values) only when asked for and the
-    quick part has not already produced a concrete counterexample"""
+    """quick part always (exhaustive [-2^16, 2^16], boundaries to 2^134, 600 random); the deep part (exhaustive to
+    2^20, 20000 random values) only when asked for and the quick part has not already produced a counterexample"""
     import random
     rng = random.Random(ctx.seed * 7919 + 20)
     n = 0
@@ -218,16 +253,16 @@ def oracle_sweep(ctx, lb, deep):
             for v in ((a, -a) if a else (0,)):
                 k += check_value(ctx, lb, v, [0x80, 0x7F] if v & 1 else [])
         return k
-    lim = 1 << 12
+    lim = 1 << 16
     n += exhaustive(0, lim)
     for v in boundary_values(19):
         n += check_value(ctx, lb, v, [rng.randrange(256)])
     for v in random_values(rng, 600):
         n += check_value(ctx, lb, v, [rng.randrange(256) for _ in range(rng.randrange(3))])
     if deep and len(ctx.violations) + len(ctx.known_hits) == nviol:
-        n += exhaustive(lim + 1, 1 << 16)
-        lim = 1 << 16
-        for v in random_values(rng, 4000):
+        n += exhaustive(lim + 1, 1 << 20)
+        lim = 1 << 20
+        for v in random_values(rng, 20000):
             n += check_value(ctx, lb, v, [rng.randrange(256) for _ in range(rng.randrange(3))])
     ctx.cov['stages']['oracle_sweep'] = {'exhaustive_range': [-lim, lim], 'boundaries': len(boundary_values(19)),
                                          'evaluations': n}
@@ -248,6 +283,27 @@ def search(ctx):
     oracle_sweep(ctx, load_impl(), True)
 
 
+def replay(rec):
+    """re-execute a recorded counterexample on the current implementation; exit 1 while it still fails"""
+    lb = load_impl()
+    name, arg = rec['fn'], rec['args'][0]
+
+    class _C:
+        failed_stages = []
+
+        def violation(self, r):
+            print('still fails:', r['actual'])
+    c = _C()
+    if name in ENC:
+        out = timed(c, name, arg, lambda: call_impl(getattr(lb, name), [arg], diag=(ValueError,)))
+        shown = list(out.v) if isinstance(out, OkV) else ('hang' if out is None else out.__name__)
+    else:
+        out = timed(c, name, arg, lambda: impl_decode(getattr(lb, name), arg))
+        shown = list(out.v) if isinstance(out, OkV) else ('hang' if out is None else out.__name__)
+    print('%s(%r) -> %r   expected %r' % (name, arg, shown, rec.get('expected')))
+    return 0 if shown == rec.get('expected') or (rec.get('expected') == 'ValueError' and out is Diag) else 1
+
+
 def regen(ctx):
     return ctx.gen_T('leb128', 'ppci/utils/leb128.py', ENTRIES)
 
@@ -263,16 +319,24 @@ def self_test_reference():
 
 
 def run(ctx):
+    import time
+    tm = ctx.cov['stages'].setdefault('timing_s', {})
+    t0 = time.time()
     self_test_reference()
+    HUNG.clear()
     lb = load_impl()
     infos, hashes = regen(ctx)
     ctx.build(['Proofs/C20_leb128.vo'])
+    tm['build_proofs'] = round(time.time() - t0, 1)
+    t0 = time.time()
     # always: counts the obligations even when the proofs no longer build (then it records a failed stage)
     ctx.check_props('Props/C20.v')
+    tm['props'] = round(time.time() - t0, 1)
+    t0 = time.time()
     # ---- correspondence: regenerated model vs implementation
     if ctx.build(['Gen/leb128.vo', 'Lib/Val.vo'])[0]:
         rng = ctx.rng
-        values = boundary_values(19) + random_values(rng, 150 if ctx.quick() else 600)
+        values = boundary_values(19, wide=not ctx.quick()) + random_values(rng, 100 if ctx.quick() else 600)
         cases, recs, seen = [], [], set()
         dist = {}
 
@@ -287,13 +351,16 @@ def run(ctx):
             d['ok' if isinstance(out, OkV) else ('diag' if out is Diag else 'internal')] += 1
 
         for v in values:
-            add('signed_leb128_encode', v, call_impl(lb.signed_leb128_encode, [v], diag=()), 'value')
-            add('unsigned_leb128_encode', v, call_impl(lb.unsigned_leb128_encode, [v], diag=(ValueError, TypeError)),
-                'value' if v >= 0 else 'negative')
-        dvals = values[::3] + [0, 1, -1, 63, 64, -64, -65]
+            for name, diag in (('signed_leb128_encode', ()), ('unsigned_leb128_encode', (ValueError, TypeError))):
+                out = timed(ctx, name, v, lambda: call_impl(getattr(lb, name), [v], diag=diag))
+                if out is not None:
+                    add(name, v, out, 'value' if v >= 0 or name.startswith('signed') else 'negative')
+        dvals = values[::(4 if ctx.quick() else 2)] + [0, 1, -1, 63, 64, -64, -65]
         for label, data in decoder_inputs(rng, dvals):
             for name in DEC:
-                add(name, list(data), impl_decode(getattr(lb, name), data), label)
+                out = timed(ctx, name, list(data), lambda: impl_decode(getattr(lb, name), data))
+                if out is not None:
+                    add(name, list(data), out, label)
         nontriv = 0
         for (name, arg, out) in recs:
             if isinstance(out, OkV):
@@ -315,8 +382,11 @@ def run(ctx):
                         out.v if isinstance(out, OkV) else out)
             ctx.failed_stages.append(('correspondence', 'Gen.leb128 disagrees with ppci.utils.leb128 on %d cases, first: %s %s'
                                       % (len(bad), recs[bad[0]][0], repr(recs[bad[0]][1])[:200])))
+    tm['correspondence'] = round(time.time() - t0, 1)
+    t0 = time.time()
     # ---- reference sweep: always (cheap), deep when a stage failed or tier is thorough
     oracle_sweep(ctx, lb, (not ctx.quick()) or bool(ctx.failed_stages))
+    tm['oracle_sweep'] = round(time.time() - t0, 1)
     ctx.cov['exhaustive'] = False
 
 
